@@ -85,8 +85,11 @@ def cmd_set_store(kind, dir=None, cache=None, internal=None, data=None, raw=Fals
     elif kind == "dbfs":
         from .fakedbutils import FakeDbutils
 
-        dbu = FakeDbutils(os.path.join(dir, "dbfsroot"))
+        dbu = STATE.get("dbutils") if STATE.get("dbutils_dir") == dir else None
+        if dbu is None:
+            dbu = FakeDbutils(os.path.join(dir, "dbfsroot"))
         STATE["dbutils"] = dbu
+        STATE["dbutils_dir"] = dir
         dds.set_store("dbfs", internal_dir=internal or "dbfs:/internal", data_dir=data or "dbfs:/data",
                       dbutils=dbu, commit_type=commit_type, cache_objects=cache)
     else:
